@@ -188,6 +188,13 @@ def stepCls (st : PSt) (neg : Bool) (rs : List (Nat × Nat)) (first inR : Bool) 
   else if inR then addRange st neg rs c
   else { st with mode := .cls neg ((c, c) :: rs) false false }
 
+/-- `parse_star` has decided: the peeked char was bumped by it, or goes through the dispatch -/
+def afterStar2 (r : PSt × Bool) (c : Nat) : PSt :=
+  if r.2 then { r.1 with cur := some c }
+  else match r.1.mode with
+    | .failed _ => r.1
+    | _ => stepNormal r.1 c
+
 /-- the parser, one char at a time -/
 def step (st : PSt) (c : Nat) : PSt :=
   match st.mode with
@@ -196,27 +203,26 @@ def step (st : PSt) (c : Nat) : PSt :=
   | .star1 p =>
     if c = 42 then { st with mode := .star2 p, cur := some 42 }
     else stepNormal { pushAtom st .star with mode := .normal } c
-  | .star2 p =>
-    let r := star2 { st with mode := .normal } p (some c)
-    if r.2 then { r.1 with cur := some c }
-    else (match r.1.mode with | .failed _ => r.1 | _ => stepNormal r.1 c)
+  | .star2 p => afterStar2 (star2 { st with mode := .normal } p (some c)) c
   | .esc => { pushAtom st (.lit c) with mode := .normal, cur := some c }
   | .clsOpen =>
     if c = 33 || c = 94 then { st with mode := .cls true [] true false, cur := some c }
     else stepCls st false [] true false c
   | .cls neg rs first inR => stepCls st neg rs first inR c
 
-/-- end of the chars: the rest of the function that was waiting, then the stack check of `build` -/
-def finish (st : PSt) : Except GlobErr Tokens :=
-  let close (st : PSt) : Except GlobErr Tokens :=
-    match st.mode with
-    | .failed e => .error e
-    | _ => if st.alts.isEmpty then .ok st.top.reverse else .error .unclosedAlternates
+/-- the stack check of `build` (`stack.len() > 1`: an alternate is still open) -/
+def closeAlts (st : PSt) : Except GlobErr Tokens :=
   match st.mode with
   | .failed e => .error e
-  | .normal => close st
-  | .star1 _ => close { pushAtom st .star with mode := .normal }
-  | .star2 p => close (star2 { st with mode := .normal } p none).1
+  | _ => if st.alts.isEmpty then .ok st.top.reverse else .error .unclosedAlternates
+
+/-- end of the chars: the rest of the function that was waiting, then the stack check of `build` -/
+def finish (st : PSt) : Except GlobErr Tokens :=
+  match st.mode with
+  | .failed e => .error e
+  | .normal => closeAlts st
+  | .star1 _ => closeAlts { pushAtom st .star with mode := .normal }
+  | .star2 p => closeAlts (star2 { st with mode := .normal } p none).1
   | .esc => .error .danglingEscape
   | .clsOpen => .error .unclosedClass
   | .cls _ _ _ _ => .error .unclosedClass
